@@ -5,4 +5,4 @@
 const VhOp vh_float_ops[] = {{NULL, NULL}};
 const VhOp vh_adaptive_ops[] = {{NULL, NULL}};
 const VhOp vh_mem_ops[] = {{NULL, NULL}};
-const VhOp vh_dim_ops[] = {{NULL, NULL}};
+
